@@ -27,6 +27,32 @@ static int comper (hawk_arr_t* a, const void* d1, hawk_oow_t l1, const void* d2,
 { uintptr_t x = (uintptr_t)d1, y = (uintptr_t)d2; return (x > y) - (x < y); }
 static hawk_arr_style_t style = { HAWK_ARR_COPIER_SIMPLE, freeer, comper, keeper, HAWK_NULL };
 
+/* third array: a heap whose items carry a position back-pointer (hawk_arr_setheapposoffset): the datum is a pointer
+ * to a struct pitem and arr.c's HEAP_UPDATE_POS writes the slot index into its pos field after every slot store.
+ * New items start with a poison pos so that a store without the update is visible. */
+struct pitem { unsigned long key; hawk_oow_t pos; };
+#define POISON 777777UL
+static struct pitem* mkitem (unsigned long k) { struct pitem* it = malloc(sizeof(*it)); it->key = k; it->pos = POISON; return it; }
+static void pfreeer (hawk_arr_t* a, void* d, hawk_oow_t l) { ev('F', (void*)(uintptr_t)(((struct pitem*)d)->key + 1)); free(d); }
+static int pcomper (hawk_arr_t* a, const void* d1, hawk_oow_t l1, const void* d2, hawk_oow_t l2)
+{ unsigned long x = ((const struct pitem*)d1)->key, y = ((const struct pitem*)d2)->key; return (x > y) - (x < y); }
+static hawk_arr_style_t pstyle = { HAWK_ARR_COPIER_SIMPLE, pfreeer, pcomper, HAWK_NULL, HAWK_NULL };
+
+static void dumpp (hawk_arr_t* p)
+{
+	hawk_oow_t i; int ord = 1, posok = 1;
+	printf("p=[");
+	for (i = 0; i < p->size; i++)
+	{
+		struct pitem* it = p->slot[i] ? (struct pitem*)p->slot[i]->val.ptr : NULL;
+		if (!it) { printf("%s?:?", i ? ", " : ""); posok = 0; continue; }
+		printf("%s%lu:%lu", i ? ", " : "", it->key, (unsigned long)it->pos);
+		if (it->pos != i) posok = 0;
+		if (i > 0 && p->slot[(i - 1) / 2] && it->key > ((struct pitem*)p->slot[(i - 1) / 2]->val.ptr)->key) ord = 0;
+	}
+	printf("] ord=%s posok=%s", ord ? "true" : "false", posok ? "true" : "false");
+}
+
 static long cur_line;
 static void on_alarm (int sig) { printf("HANG\n"); fflush(stdout); _exit(3); }
 
@@ -63,7 +89,7 @@ static void dumph (hawk_arr_t* h)
 
 int main (int argc, char** argv)
 {
-	static hawk_gem_t gem; hawk_arr_t* a = NULL; hawk_arr_t* h = NULL;
+	static hawk_gem_t gem; hawk_arr_t* a = NULL; hawk_arr_t* h = NULL; hawk_arr_t* p = NULL;
 	char line[512], op[32], o[256]; unsigned long x, y;
 	int wd = argc > 1 ? atoi(argv[1]) : 10;
 	memset(&gem, 0, sizeof(gem)); gem.mmgr = &mmgr;
@@ -76,9 +102,12 @@ int main (int argc, char** argv)
 		if (sscanf(line, "%31s", op) != 1) { printf("bad-op\n"); continue; }
 		if (!strcmp(op, "new"))
 		{
-			if (a) hawk_arr_close(a); if (h) hawk_arr_close(h);
+			if (a) hawk_arr_close(a); if (h) hawk_arr_close(h); if (p) hawk_arr_close(p);
 			a = hawk_arr_open(&gem, 0, 0); hawk_arr_setstyle(a, &style);
 			h = hawk_arr_open(&gem, 0, 0); hawk_arr_setstyle(h, &style);
+			p = hawk_arr_open(&gem, 0, 0); hawk_arr_setstyle(p, &pstyle);
+			hawk_arr_setheapposoffset(p, (hawk_oow_t)&((struct pitem*)0)->pos);
+			if (hawk_arr_getheapposoffset(p) != (hawk_oow_t)&((struct pitem*)0)->pos) printf("offset-not-kept ");
 			printf("ok\n");
 		}
 		else if (!a) printf("bad-op\n");
@@ -117,10 +146,49 @@ int main (int argc, char** argv)
 			if (x < h->size) { hawk_arr_updateheap(h, x, ENC(y), 0); dumph(h); printf(" f=%s\n", evbuf[0] == 'F' ? evbuf + 1 : "-"); }
 			else { dumph(h); printf(" f=-\n"); }
 		}
+		else if (!strcmp(op, "ppush") && sscanf(line, "%*s %lu", &x) == 1)
+		{
+			struct pitem* it = mkitem(x);
+			if (hawk_arr_pushheap(p, it, 0) == HAWK_ARR_NIL) free(it);
+			dumpp(p); printf("\n");
+		}
+		else if ((!strcmp(op, "pdel") && sscanf(line, "%*s %lu", &x) == 1) || !strcmp(op, "ppop"))
+		{
+			if (op[1] == 'p') x = 0;
+			if (x < p->size)
+			{
+				if (op[1] == 'p') hawk_arr_popheap(p); else hawk_arr_deleteheap(p, x);
+				dumpp(p); printf(" f=%s\n", evbuf[0] ? evbuf + 1 : "-");
+			}
+			else { dumpp(p); printf(" f=-\n"); }
+		}
+		else if (!strcmp(op, "pupd") && sscanf(line, "%*s %lu %lu", &x, &y) == 2)
+		{
+			if (x < p->size)
+			{
+				struct pitem* it = mkitem(y);
+				int same = (((struct pitem*)p->slot[x]->val.ptr)->key == y); /* equal keys: updateheap leaves the old item in place */
+				hawk_arr_updateheap(p, x, it, 0);
+				if (same) free(it);
+				dumpp(p); printf(" f=%s\n", evbuf[0] == 'F' ? evbuf + 1 : "-");
+			}
+			else { dumpp(p); printf(" f=-\n"); }
+		}
+		else if (!strcmp(op, "spush") && sscanf(line, "%*s %lu %255s", &y, o) == 2)
+		{
+			orc = o; r = hawk_arr_pushstack(a, ENC(y), 0); orc = "";
+			if (r == HAWK_ARR_NIL) printf("r=%s e=%s ", errname(&gem), evbuf); else printf("r=%lu e=%s ", (unsigned long)r, evbuf);
+			dump(a);
+		}
+		else if (!strcmp(op, "spop"))
+		{
+			if (a->size > 0) hawk_arr_popstack(a);
+			printf("r=0 e=%s ", evbuf); dump(a);
+		}
 		else printf("bad-op\n");
 		fflush(stdout);
 	}
 	alarm(0);
-	if (a) hawk_arr_close(a); if (h) hawk_arr_close(h);
+	if (a) hawk_arr_close(a); if (h) hawk_arr_close(h); if (p) hawk_arr_close(p);
 	return 0;
 }
